@@ -8,4 +8,4 @@ def run(c):
         'conditions c1, c2 are solver-chosen booleans, the foreach array has 0..3 items; expectations follow the Recommendation (error.execution, condition counts as false, only the rest of the enclosing block is aborted)',
     ]
     c.outside += ['ECMAScript datamodel (boa engine) — not encodable', '<send> argument errors are decided under C12', 'nesting deeper than 3, blocks longer than 3 elements']
-    c.run_m('h_c08_block', expect_checks=(801, 802, 803, 804), expect_cover=(801,), bounds={'kinds': 15, 'conditions': 'all', 'foreach length': '0..3'}, diff_samples=4)
+    c.run_m('h_c08_block', expect_checks=(801, 802, 803, 804), expect_cover=(801,), bounds={'kinds': 17, 'conditions': 'all', 'foreach length': '0..3'}, diff_samples=4)
